@@ -1,5 +1,5 @@
 /- Whole documents through the serializers and the filter, tied to the source by translation: `lean/AJ/Gen/Tables.lean` is regenerated on every run by calling
-   the compiled library - `serializeJson`, `serializeJsonPretty`, `serializeMsgPack` on the documents denoted by 44 JSON texts (scalars at every MessagePack width
+   the compiled library - `serializeJson`, `serializeJsonPretty`, `serializeMsgPack` on the documents denoted by 46 JSON texts (scalars at every MessagePack width
    boundary, strings with every escape, fixstr/str8 and fixarray/array16 and fixmap/map16 boundaries, nested and repeated-key objects, floats), and the filtered
    `deserializeJson` on 14 filters x 9 inputs - and the theorems evaluate the deserializer, the two JSON serializers, the MessagePack serializer and the filtered
    deserializer models on the same data in the kernel. -/
